@@ -1,8 +1,12 @@
-// C03 — client side: mithril-client MithrilCertificateVerifier::verify_chain and its helpers (certificate_client/verify.rs), on
-// the working tree's text, DEFAULT features (the optional verifier cache is behind the `unstable` feature and is stripped:
-// fetch_cached_previous_hash is the `not(unstable)` alternative, which never answers from a cache).
-// Every certificate on the walk is verified by the common verifier (unit verifier), and the walk only ends at a certificate
-// that verifier accepted as a chain root.
+// C03 — client side WITH the certificate-verifier cache: mithril-client MithrilCertificateVerifier (certificate_client/verify.rs)
+// as compiled with the cargo feature `unstable` (which the workspace build and mithril-client-cli enable), on the working
+// tree's text. The cache maps the hash of a certificate that was verified earlier to its previous hash; a cache hit skips the
+// verification of that certificate.
+// Obligation taken from the property ("for every way the provider can answer"): a certificate handed to
+// verify_with_cache_enabled is accepted only if it is VOUCHED FOR: either the common verifier accepts it now, or its hash is
+// in the cache AND - when its content has been downloaded and used to judge the certificate chained to it - that content
+// hashes to this very hash. Without the last conjunct a provider can answer a cached hash with forged content announcing its
+// own aggregate key (finding F-C03-2).
 use vstd::prelude::*;
 verus! {
 
@@ -17,23 +21,28 @@ pub struct MithrilError {}
 pub enum CertificateVerifierError { CertificateHashUnmatch }
 #[verifier::external_body]
 fn anyhow_error(e: CertificateVerifierError) -> MithrilError { unimplemented!() }
-/// SHA-256 of the certificate's content (Certificate::try_compute_hash)
-pub uninterp spec fn content_hash(c: &Certificate) -> Seq<char>;
-impl Certificate {
-    #[verifier::external_body]
-    pub fn try_compute_hash(&self) -> (r: Result<String, MithrilError>) ensures r is Ok ==> r->Ok_0@ == content_hash(self) { unimplemented!() }
-}
 
-/// outcomes of the common verifier's verify_certificate (its contract: unit verifier): accepted as a chain root
-/// (Ok(None): genesis verified under the configured key), or accepted with this previous certificate (Ok(Some(p)): the
-/// per-link rule holds and p is the retriever's answer for previous_hash)
 pub uninterp spec fn accepted_as_root(c: &Certificate) -> bool;
 pub uninterp spec fn accepted_link(c: &Certificate, p: &Certificate) -> bool;
 pub uninterp spec fn downloaded_for(hash: Seq<char>, c: &Certificate) -> bool;
-pub uninterp spec fn converted(m: &MithrilCertificate, c: &Certificate) -> bool;   // TryFrom<CertificateMessage> for Certificate
+pub uninterp spec fn converted(m: &MithrilCertificate, c: &Certificate) -> bool;
+/// SHA-256 of the certificate's content (Certificate::try_compute_hash)
+pub uninterp spec fn content_hash(c: &Certificate) -> Seq<char>;
+pub uninterp spec fn is_genesis_kind(c: &Certificate) -> bool;
 
 #[verifier::external_body] pub struct InternalVerifier { _p: core::marker::PhantomData<u8> }
 #[verifier::external_body] pub struct Retriever { _p: core::marker::PhantomData<u8> }
+#[verifier::external_body] pub struct VerifierCache { _p: core::marker::PhantomData<u8> }
+/// the cache holds (hash -> previous hash): a certificate with this hash was verified earlier
+pub uninterp spec fn cached_previous(c: &VerifierCache, hash: Seq<char>) -> Option<Seq<char>>;
+impl VerifierCache {
+    #[verifier::external_body]
+    pub fn get_previous_hash(&self, hash: &str) -> (r: Result<Option<String>, MithrilError>)
+        ensures r is Ok ==> (r->Ok_0 is Some) == (cached_previous(self, hash@) is Some), r is Ok && r->Ok_0 is Some ==> r->Ok_0->Some_0@ == cached_previous(self, hash@)->Some_0
+    { unimplemented!() }
+    #[verifier::external_body]
+    pub fn store_validated_certificate(&self, hash: &String, previous_hash: &String) -> (r: Result<(), MithrilError>) { unimplemented!() }
+}
 impl InternalVerifier {
     #[verifier::external_body]
     pub fn verify_certificate(&self, c: &Certificate) -> (r: Result<Option<Certificate>, MithrilError>)
@@ -46,11 +55,11 @@ impl Retriever {
         ensures r is Ok ==> downloaded_for(hash@, &r->Ok_0)
     { unimplemented!() }
 }
-impl MithrilCertificate {
+impl Certificate {
     #[verifier::external_body]
-    pub fn clone(&self) -> (r: MithrilCertificate) ensures r == *self { unimplemented!() }
+    pub fn try_compute_hash(&self) -> (r: Result<String, MithrilError>) ensures r is Ok ==> r->Ok_0@ == content_hash(self) { unimplemented!() }
     #[verifier::external_body]
-    pub fn try_into(self) -> (r: Result<Certificate, MithrilError>) ensures r is Ok ==> converted(&self, &r->Ok_0) { unimplemented!() }
+    pub fn is_genesis(&self) -> (r: bool) ensures r == is_genesis_kind(self) { unimplemented!() }
 }
 
 pub enum CertificateToVerify { Downloaded { certificate: Box<Certificate> }, ToDownload { hash: String } }
@@ -58,9 +67,6 @@ pub enum CertificateToVerify { Downloaded { certificate: Box<Certificate> }, ToD
 fn into_to_verify(c: Option<Certificate>) -> (r: Option<CertificateToVerify>)
     ensures (r is Some) == (c is Some), c is Some ==> r->Some_0 == (CertificateToVerify::Downloaded { certificate: Box::new(c->Some_0) })
 { unimplemented!() }
-#[verifier::external_body]
-fn epoch_differs(c: &Option<Certificate>, e: Epoch) -> (r: bool) ensures r == (c is Some && c->Some_0.epoch.0 != e.0) { unimplemented!() }
-
 /// `if let CertificateToVerify::Downloaded { certificate } = &x` as a let-chain head (outside Verus' subset): the borrowed certificate
 #[verifier::external_body]
 fn downloaded_ref(c: &CertificateToVerify) -> (r: &Certificate) requires c is Downloaded ensures *r == *c->Downloaded_certificate { unimplemented!() }
@@ -81,21 +87,31 @@ fn hash(&self) -> (ret: &str)
 // ---- end of extracted text ----
 }
 
-pub struct MithrilCertificateVerifier { pub retriever: Retriever, pub internal_verifier: InternalVerifier }
+pub struct MithrilCertificateVerifier { pub retriever: Retriever, pub internal_verifier: InternalVerifier, pub verifier_cache: Option<VerifierCache> }
 
-/// some certificate was accepted by the common verifier as a chain root during this call
-pub open spec fn reached_root() -> bool { exists|g: Certificate| accepted_as_root(&g) }
-/// the common verifier accepted c (as a root, or linked to some previous certificate)
 pub open spec fn verified(c: &Certificate) -> bool { accepted_as_root(c) || exists|p: Certificate| accepted_link(c, &p) }
-/// the certificate handed to verify_chain was itself verified
-pub open spec fn first_verified(m: &MithrilCertificate) -> bool { exists|c0: Certificate| converted(m, &c0) && verified(&c0) }
+pub open spec fn in_cache(v: &MithrilCertificateVerifier, hash: Seq<char>) -> bool { v.verifier_cache is Some && cached_previous(&v.verifier_cache->Some_0, hash) is Some }
+/// the certificate handed to the cache-enabled step is vouched for
+pub open spec fn vouched(v: &MithrilCertificateVerifier, c: &CertificateToVerify) -> bool {
+    match c {
+        // downloaded content: verified now, or verified earlier under this hash AND the content hashes to this hash
+        CertificateToVerify::Downloaded { certificate } => verified(certificate) || (in_cache(v, certificate.hash@) && content_hash(certificate) == certificate.hash@),
+        // only a hash so far: verified earlier under this hash, or downloaded for this hash and verified now
+        CertificateToVerify::ToDownload { hash } => in_cache(v, hash@) || exists|d: Certificate| downloaded_for(hash@, &d) && verified(&d),
+    }
+}
 
 impl MithrilCertificateVerifier {
-// ---- extracted from mithril-client/src/certificate_client/verify.rs:97 (fn fetch_cached_previous_hash) ----
-fn fetch_cached_previous_hash(&self, _hash: &str) -> (ret: Result<Option<String>, MithrilError>)
-    ensures ret is Ok && ret->Ok_0 is None
+// ---- extracted from mithril-client/src/certificate_client/verify.rs:88 (fn fetch_cached_previous_hash) ----
+fn fetch_cached_previous_hash(&self, hash: &str) -> (ret: Result<Option<String>, MithrilError>)
+    ensures ret is Ok ==> (ret->Ok_0 is Some) == in_cache(self, hash@),
+            ret is Ok && ret->Ok_0 is Some ==> ret->Ok_0->Some_0@ == cached_previous(&self.verifier_cache->Some_0, hash@)->Some_0,
 {
-        Ok(None)
+        if let Some(cache) = self.verifier_cache.as_ref() {
+            Ok(cache.get_previous_hash(hash)?)
+        } else {
+            Ok(None)
+        }
     }
 // ---- end of extracted text ----
 
@@ -111,7 +127,11 @@ fn verify_without_cache(
 {
         let previous_certificate = self.internal_verifier.verify_certificate(&certificate)?;
 
-        
+        if self.verifier_cache.is_some() && !certificate.is_genesis() { let cache = self.verifier_cache.as_ref().unwrap();
+            cache
+                .store_validated_certificate(&certificate.hash, &certificate.previous_hash)
+                ?;
+        }
 
         
         
@@ -126,11 +146,8 @@ fn verify_with_cache_enabled(
         certificate_chain_validation_id: &str,
         certificate: CertificateToVerify,
     ) -> (ret: Result<Option<CertificateToVerify>, MithrilError>)
-    ensures
-        // default build: never answered from a cache - the certificate (downloaded for the requested hash if necessary) was
-        // verified by the common verifier; None only when it was accepted as a chain root
-        ret is Ok && ret->Ok_0 is None ==> reached_root(),
-        ret is Ok && ret->Ok_0 is Some ==> ret->Ok_0->Some_0 is Downloaded,
+    ensures ret is Ok ==> vouched(self, &certificate),
+            ret is Ok && ret->Ok_0 is Some ==> (ret->Ok_0->Some_0 is ToDownload ==> in_cache(self, certificate_hash_view(&certificate))),
 {
         
         if let Some(previous_hash) = self.fetch_cached_previous_hash(certificate.hash())? {
@@ -160,64 +177,9 @@ fn verify_with_cache_enabled(
         }
     }
 // ---- end of extracted text ----
-
-// ---- extracted from mithril-client/src/certificate_client/verify.rs:196 (fn verify_chain) ----
-#[verifier::exec_allows_no_decreases_clause]
-fn verify_chain(&self, certificate: &MithrilCertificate) -> (ret: Result<(), MithrilError>)
-    ensures ret is Ok ==> reached_root() && first_verified(certificate)
-{
-        // Todo: move most of this code in the `mithril_common` verifier by defining
-        // a new `verify_chain` method that take a callback called when a certificate is
-        // validated.
-        let certificate_chain_validation_id = String::new();
-        
-
-        // Validate certificates without cache until we cross an epoch boundary
-        // This is necessary to ensure that the AVK chaining is correct
-        let start_epoch = certificate.epoch;
-        let mut current_certificate: Option<Certificate> = Some(certificate.clone().try_into()?);
-        loop 
-        invariant current_certificate is None ==> reached_root(),
-                  first_verified(certificate) || (current_certificate is Some && converted(certificate, &current_certificate->Some_0)),
-        ensures first_verified(certificate),
-    {
-            match current_certificate {
-                None => break,
-                Some(next) => {
-                    current_certificate = self
-                        .verify_without_cache(&certificate_chain_validation_id, next)
-                        ?;
-
-                    let has_crossed_epoch_boundary =
-                        epoch_differs(&current_certificate, start_epoch);
-                    if has_crossed_epoch_boundary {
-                        break;
-                    }
-                }
-            }
-        }
-
-        let mut current_certificate: Option<CertificateToVerify> =
-            into_to_verify(current_certificate);
-        loop 
-        invariant current_certificate is None ==> reached_root(),
-        ensures reached_root(),
-    {
-            match current_certificate {
-                None => break,
-                Some(next) => {
-                    current_certificate = self
-                        .verify_with_cache_enabled(&certificate_chain_validation_id, next)
-                        ?
-                }
-            }
-        }
-
-        
-
-        Ok(())
-    }
-// ---- end of extracted text ----
+}
+pub open spec fn certificate_hash_view(c: &CertificateToVerify) -> Seq<char> {
+    match c { CertificateToVerify::Downloaded { certificate } => certificate.hash@, CertificateToVerify::ToDownload { hash } => hash@ }
 }
 
 } // verus!
